@@ -118,10 +118,8 @@ Qed.
 Definition sel_stdout (o : options) (g : N) : stdout_class :=
   if o_json o then match o_output o with Some _ => SNothing | None => SJson g end
   else if o_quiet o then SNothing else SPretty g.
-Definition sel_file (o : options) (lib : lib_results) (g : N) : file_class :=
-  if o_json o then match o_output o with
-                   | Some p => if lr_create_ok lib p then FJson g else FNothing
-                   | None => FNothing end
+Definition sel_file (o : options) (g : N) : file_class :=
+  if o_json o then match o_output o with Some _ => FJson g | None => FNothing end
   else FNothing.
 
 Inductive cli_case (o : options) (lib : lib_results) : Prop :=
@@ -131,12 +129,14 @@ Inductive cli_case (o : options) (lib : lib_results) : Prop :=
 | CaseLater gl : usage_error o = false -> parse_globals globals_new (o_globals o) = Some gl ->
     (lr_load lib = LoadRejected \/
      (lr_load lib = LoadOk /\ o_allow o = false /\ lr_parse_errors lib <> 0) \/
-     (lr_load lib = LoadOk /\ (lr_parse_errors lib = 0 \/ o_allow o = true) /\ lr_exec lib (o_lazy o) gl = ExecErr)) ->
+     (lr_load lib = LoadOk /\ (lr_parse_errors lib = 0 \/ o_allow o = true) /\ lr_exec lib (o_lazy o) gl = ExecErr) \/
+     (lr_load lib = LoadOk /\ (lr_parse_errors lib = 0 \/ o_allow o = true) /\
+      (exists g, lr_exec lib (o_lazy o) gl = ExecOk g) /\ output_blocked o lib = true)) ->
     cli o lib = cli_fail Exit1 -> cli_case o lib
 | CaseOk gl g : usage_error o = false -> parse_globals globals_new (o_globals o) = Some gl ->
     lr_load lib = LoadOk -> (lr_parse_errors lib = 0 \/ o_allow o = true) ->
-    lr_exec lib (o_lazy o) gl = ExecOk g ->
-    cli o lib = cli_done (sel_stdout o g) (sel_file o lib g) -> cli_case o lib.
+    lr_exec lib (o_lazy o) gl = ExecOk g -> output_blocked o lib = false ->
+    cli o lib = cli_done (sel_stdout o g) (sel_file o g) -> cli_case o lib.
 
 Lemma cli_cases : forall o lib, cli_case o lib.
 Proof.
@@ -159,34 +159,41 @@ Proof.
   { apply (CaseLater o lib gl); [exact Hu | exact Hp | right; left; split; [exact Hl | exact (Hgate eq_refl)] |].
     unfold cli. rewrite Hu, Hp, Hl, Hg. reflexivity. }
   destruct (lr_exec lib (o_lazy o) gl) as [g|] eqn:Hx.
-  2:{ apply (CaseLater o lib gl); [exact Hu | exact Hp | right; right; repeat split; [exact Hl | exact (Hpass eq_refl) | exact Hx] |].
+  2:{ apply (CaseLater o lib gl); [exact Hu | exact Hp | right; right; left; repeat split; [exact Hl | exact (Hpass eq_refl) | exact Hx] |].
       unfold cli. rewrite Hu, Hp, Hl, Hg, Hx. reflexivity. }
-  apply (CaseOk o lib gl g); [exact Hu | exact Hp | exact Hl | exact (Hpass eq_refl) | exact Hx |].
-  unfold cli, sel_stdout, sel_file. rewrite Hu, Hp, Hl, Hg, Hx.
-  destruct (o_json o); [destruct (o_output o) as [p|]; [destruct (lr_create_ok lib p)|]|destruct (o_quiet o)]; reflexivity.
+  destruct (output_blocked o lib) eqn:Hb.
+  - apply (CaseLater o lib gl); [exact Hu | exact Hp | |].
+    + right; right; right. split; [exact Hl|]. split; [exact (Hpass eq_refl)|]. split; [exists g; exact Hx | exact Hb].
+    + unfold cli. rewrite Hu, Hp, Hl, Hg, Hx. unfold output_blocked in Hb.
+      destruct (o_json o); [|discriminate Hb]. destruct (o_output o) as [p|]; [|discriminate Hb].
+      destruct (lr_create_ok lib p); [discriminate Hb | reflexivity].
+  - apply (CaseOk o lib gl g); [exact Hu | exact Hp | exact Hl | exact (Hpass eq_refl) | exact Hx | exact Hb |].
+    unfold cli, sel_stdout, sel_file. rewrite Hu, Hp, Hl, Hg, Hx. unfold output_blocked in Hb.
+    destruct (o_json o); [destruct (o_output o) as [p|]; [destruct (lr_create_ok lib p); [|discriminate Hb]|]|destruct (o_quiet o)]; reflexivity.
 Qed.
 
 (* ---- cli_table ---- *)
 Lemma cli_exit0_iff_lemma : forall o lib,
   ob_exit (cli o lib) = Exit0 <->
-  usage_error o = false /\
+  usage_error o = false /\ output_blocked o lib = false /\
   exists kvs, map split_once_eq (o_globals o) = map Some kvs /\ NoDup (map fst kvs) /\
     lr_load lib = LoadOk /\ (lr_parse_errors lib = 0 \/ o_allow o = true) /\
     exists g, lr_exec lib (o_lazy o) (string_globals kvs) = ExecOk g.
 Proof.
   intros o lib. split.
-  - intros H0. destruct (cli_cases o lib) as [Hu E|Hu Hp E|gl Hu Hp Hc E|gl g Hu Hp Hl Hg Hx E];
+  - intros H0. destruct (cli_cases o lib) as [Hu E|Hu Hp E|gl Hu Hp Hc E|gl g Hu Hp Hl Hg Hx Hb E];
       rewrite E in H0; try discriminate H0.
-    split; [exact Hu|]. apply parse_globals_spec_lemma in Hp. destruct Hp as (kvs & Hm & Hnd & ->).
+    split; [exact Hu|]. split; [exact Hb|].
+    apply parse_globals_spec_lemma in Hp. destruct Hp as (kvs & Hm & Hnd & ->).
     exists kvs. repeat split; try assumption. exists g. exact Hx.
-  - intros (Hu & kvs & Hm & Hnd & Hl & Hg & g & Hx).
+  - intros (Hu & Hb & kvs & Hm & Hnd & Hl & Hg & g & Hx).
     assert (Hp : parse_globals globals_new (o_globals o) = Some (string_globals kvs)).
     { apply parse_globals_spec_lemma. exists kvs. repeat split; assumption. }
-    destruct (cli_cases o lib) as [Hu' E|Hu' Hp' E|gl Hu' Hp' Hc E|gl g' Hu' Hp' Hl' Hg' Hx' E]; rewrite E.
+    destruct (cli_cases o lib) as [Hu' E|Hu' Hp' E|gl Hu' Hp' Hc E|gl g' Hu' Hp' Hl' Hg' Hx' Hb' E]; rewrite E.
     + congruence.
     + congruence.
     + exfalso. rewrite Hp in Hp'. injection Hp' as <-.
-      destruct Hc as [Hc|[(_ & Ha & He)|(_ & _ & Hc)]]; [congruence | | congruence].
+      destruct Hc as [Hc|[(_ & Ha & He)|[(_ & _ & Hc)|(_ & _ & _ & Hc)]]]; [congruence | | congruence | congruence].
       destruct Hg as [Hg|Hg]; congruence.
     + reflexivity.
 Qed.
@@ -197,15 +204,14 @@ Lemma cli_routing_lemma : forall o lib,
   exists kvs g, map split_once_eq (o_globals o) = map Some kvs /\
     lr_exec lib (o_lazy o) (string_globals kvs) = ExecOk g /\
     match o_json o, o_output o with
-    | true, Some p => ob_stdout (cli o lib) = SNothing /\
-                      ob_file (cli o lib) = (if lr_create_ok lib p then FJson g else FNothing)
+    | true, Some _ => ob_stdout (cli o lib) = SNothing /\ ob_file (cli o lib) = FJson g
     | true, None => ob_stdout (cli o lib) = SJson g /\ ob_file (cli o lib) = FNothing
     | false, _ => ob_stdout (cli o lib) = (if o_quiet o then SNothing else SPretty g) /\
                   ob_file (cli o lib) = FNothing
     end.
 Proof.
   intros o lib H0.
-  destruct (cli_cases o lib) as [Hu E|Hu Hp E|gl Hu Hp Hc E|gl g Hu Hp Hl Hg Hx E];
+  destruct (cli_cases o lib) as [Hu E|Hu Hp E|gl Hu Hp Hc E|gl g Hu Hp Hl Hg Hx Hb E];
     rewrite E in H0 |- *; try discriminate H0.
   split; [reflexivity|]. apply parse_globals_spec_lemma in Hp. destruct Hp as (kvs & Hm & Hnd & ->).
   exists kvs, g. split; [exact Hm|]. split; [exact Hx|].
@@ -215,7 +221,7 @@ Qed.
 
 Lemma cli_table_lemma : forall o lib,
   (ob_exit (cli o lib) = Exit0 <->
-     usage_error o = false /\
+     usage_error o = false /\ output_blocked o lib = false /\
      exists kvs, map split_once_eq (o_globals o) = map Some kvs /\ NoDup (map fst kvs) /\
        lr_load lib = LoadOk /\ (lr_parse_errors lib = 0 \/ o_allow o = true) /\
        exists g, lr_exec lib (o_lazy o) (string_globals kvs) = ExecOk g) /\
@@ -224,8 +230,7 @@ Lemma cli_table_lemma : forall o lib,
      exists kvs g, map split_once_eq (o_globals o) = map Some kvs /\
        lr_exec lib (o_lazy o) (string_globals kvs) = ExecOk g /\
        match o_json o, o_output o with
-       | true, Some p => ob_stdout (cli o lib) = SNothing /\
-                         ob_file (cli o lib) = (if lr_create_ok lib p then FJson g else FNothing)
+       | true, Some _ => ob_stdout (cli o lib) = SNothing /\ ob_file (cli o lib) = FJson g
        | true, None => ob_stdout (cli o lib) = SJson g /\ ob_file (cli o lib) = FNothing
        | false, _ => ob_stdout (cli o lib) = (if o_quiet o then SNothing else SPretty g) /\
                      ob_file (cli o lib) = FNothing
@@ -236,7 +241,7 @@ Proof. intros o lib. split; [apply cli_exit0_iff_lemma | apply cli_routing_lemma
 Lemma cli_exit2_iff_lemma : forall o lib, ob_exit (cli o lib) = Exit2 <-> usage_error o = true.
 Proof.
   intros o lib.
-  destruct (cli_cases o lib) as [Hu E|Hu Hp E|gl Hu Hp Hc E|gl g Hu Hp Hl Hg Hx E]; rewrite E, Hu;
+  destruct (cli_cases o lib) as [Hu E|Hu Hp E|gl Hu Hp Hc E|gl g Hu Hp Hl Hg Hx Hb E]; rewrite E, Hu;
     cbn [ob_exit cli_fail cli_done]; split; congruence.
 Qed.
 
@@ -248,10 +253,12 @@ Lemma cli_exit1_iff_lemma : forall o lib,
      (lr_load lib = LoadRejected \/
       (lr_load lib = LoadOk /\ o_allow o = false /\ lr_parse_errors lib <> 0) \/
       (lr_load lib = LoadOk /\ (lr_parse_errors lib = 0 \/ o_allow o = true) /\
-       lr_exec lib (o_lazy o) gl = ExecErr))).
+       lr_exec lib (o_lazy o) gl = ExecErr) \/
+      (lr_load lib = LoadOk /\ (lr_parse_errors lib = 0 \/ o_allow o = true) /\
+       (exists g, lr_exec lib (o_lazy o) gl = ExecOk g) /\ output_blocked o lib = true))).
 Proof.
   intros o lib.
-  destruct (cli_cases o lib) as [Hu E|Hu Hp E|gl Hu Hp Hc E|gl g Hu Hp Hl Hg Hx E]; rewrite E;
+  destruct (cli_cases o lib) as [Hu E|Hu Hp E|gl Hu Hp Hc E|gl g Hu Hp Hl Hg Hx Hb E]; rewrite E;
     cbn [ob_exit cli_fail cli_done]; split.
   - discriminate.
   - intros [H _]. congruence.
@@ -262,7 +269,7 @@ Proof.
   - discriminate.
   - intros (_ & [H|(gl' & Hp' & Hc)]); [congruence|]. exfalso.
     rewrite Hp in Hp'. injection Hp' as <-.
-    destruct Hc as [Hc|[(_ & Ha & He)|(_ & _ & Hc)]]; [congruence | | congruence].
+    destruct Hc as [Hc|[(_ & Ha & He)|[(_ & _ & Hc)|(_ & _ & _ & Hc)]]]; [congruence | | congruence | congruence].
     destruct Hg as [Hg|Hg]; congruence.
 Qed.
 
@@ -272,7 +279,7 @@ Lemma failure_no_graph_lemma : forall o lib,
   ob_stdout (cli o lib) = SNothing /\ ob_file (cli o lib) = FNothing /\ ob_diag (cli o lib) = true.
 Proof.
   intros o lib H0.
-  destruct (cli_cases o lib) as [Hu E|Hu Hp E|gl Hu Hp Hc E|gl g Hu Hp Hl Hg Hx E];
+  destruct (cli_cases o lib) as [Hu E|Hu Hp E|gl Hu Hp Hc E|gl g Hu Hp Hl Hg Hx Hb E];
     rewrite E in H0 |- *; cbn [ob_exit ob_stdout ob_file ob_diag cli_fail cli_done] in *;
     try (repeat split; reflexivity).
   exfalso. apply H0. reflexivity.
@@ -282,14 +289,11 @@ Lemma diag_iff_failure_lemma : forall o lib,
   ob_diag (cli o lib) = true <-> ob_exit (cli o lib) <> Exit0.
 Proof.
   intros o lib.
-  destruct (cli_cases o lib) as [Hu E|Hu Hp E|gl Hu Hp Hc E|gl g Hu Hp Hl Hg Hx E]; rewrite E;
+  destruct (cli_cases o lib) as [Hu E|Hu Hp E|gl Hu Hp Hc E|gl g Hu Hp Hl Hg Hx Hb E]; rewrite E;
     cbn [ob_exit ob_diag cli_fail cli_done]; split; congruence.
 Qed.
 
 (* ---- quiet_only_removes_pretty ---- *)
-Definition remove_pretty (s : stdout_class) : stdout_class :=
-  match s with SPretty _ => SNothing | _ => s end.
-
 Lemma quiet_lemma : forall o lib,
   ob_exit (cli (with_quiet true o) lib) = ob_exit (cli (with_quiet false o) lib) /\
   ob_diag (cli (with_quiet true o) lib) = ob_diag (cli (with_quiet false o) lib) /\
@@ -311,18 +315,32 @@ Proof.
   - cbn [negb cli_done ob_exit ob_diag ob_file ob_stdout]. repeat split; try reflexivity. discriminate.
 Qed.
 
-Lemma with_quiet_same o : with_quiet (o_quiet o) o = o.
-Proof. destruct o; reflexivity. Qed.
-
-(* ---- the discarded io::Error ---- *)
-Lemma unwritable_output_silent_lemma : forall o lib p,
-  ob_exit (cli o lib) = Exit0 -> o_json o = true -> o_output o = Some p -> lr_create_ok lib p = false ->
-  cli o lib = cli_done SNothing FNothing.
+(* ---- an --output file that cannot be created: the io::Error is returned from main ---- *)
+Lemma unwritable_output_fails_lemma : forall o lib p,
+  o_json o = true -> o_output o = Some p -> lr_create_ok lib p = false ->
+  cli o lib = cli_fail Exit1.
 Proof.
-  intros o lib p H0 Hj Ho Hc.
-  destruct (cli_cases o lib) as [Hu E|Hu Hp E|gl Hu Hp Hcs E|gl g Hu Hp Hl Hg Hx E];
-    rewrite E in H0 |- *; try discriminate H0.
-  unfold sel_stdout, sel_file. rewrite Hj, Ho, Hc. reflexivity.
+  intros o lib p Hj Ho Hc.
+  destruct (cli_cases o lib) as [Hu E|Hu Hp E|gl Hu Hp Hcs E|gl g Hu Hp Hl Hg Hx Hb E].
+  - exfalso. unfold usage_error in Hu. rewrite Ho, Hj in Hu. discriminate Hu.
+  - exact E.
+  - exact E.
+  - exfalso. unfold output_blocked in Hb. rewrite Hj, Ho, Hc in Hb. discriminate Hb.
+Qed.
+
+Lemma output_blocked_iff_lemma : forall o lib,
+  output_blocked o lib = true <->
+  o_json o = true /\ exists p, o_output o = Some p /\ lr_create_ok lib p = false.
+Proof.
+  intros o lib. unfold output_blocked. destruct (o_json o).
+  - destruct (o_output o) as [p|].
+    + destruct (lr_create_ok lib p) eqn:Hc; cbn [negb]; split.
+      * discriminate.
+      * intros (_ & p' & [= <-] & H). congruence.
+      * intros _. split; [reflexivity|]. exists p. split; [reflexivity | exact Hc].
+      * reflexivity.
+    + split; [discriminate|]. intros (_ & p & H & _). discriminate H.
+  - split; [discriminate|]. intros [H _]. discriminate H.
 Qed.
 
 (* ---- the model never depends on the path id except through the creation oracle, nor on --lazy
